@@ -63,6 +63,13 @@ pub fn machines(opts: &Opts) -> Vec<MCfg> {
         m.check_ref = true;
         m.seeds = vec![0, 3];
         out.push(m);
+        let mut m = base_cfg("accumulate/unmerged", crate::checks::c10::same_shape_leaves(var), vec![OpK::Add, OpK::Mul], 6);
+        m.bounds = Bounds { builds: 1, passes: 3, fetches: 1, clears: 1, depth: 5, ..Bounds::default() };
+        m.check_snapshot = true;
+        m.check_ref = true;
+        m.seeds = vec![0, 3];
+        m.merged = false;
+        out.push(m);
         let mut m = base_cfg("accumulate/three-passes", crate::checks::c10::same_shape_leaves(var), vec![OpK::Add, OpK::Mul], 6);
         m.bounds = Bounds { builds: 1, passes: 3, fetches: 2, depth: 6, ..Bounds::default() };
         m.check_snapshot = true;
